@@ -17,7 +17,7 @@ def run(chk):
     chk.assumptions += ["all-colliding digests are forced by intercepting hashlib.blake2b for id digests only",
                         "CPython frees an unreachable acyclic node immediately (gc.collect() is called before a node is declared leaked)"]
     quick = chk.tier == "quick"
-    registry.run_machine(chk, PID, ["leaf-unary-3", "many1-3"], ["leaf-unary-3", "many-3", "sub-opt-3", "origins-3", "full-3"],
+    registry.run_machine(chk, PID, ["leaf-unary-3", "many1-3", "picky-3"], ["leaf-unary-3", "many-3", "sub-opt-3", "origins-3", "full-3", "picky-3"],
                          "leaf-unary-4")
     registry.run_traces(chk, PID, 80 if quick else 1200, 30 if quick else 50)
 
